@@ -303,7 +303,8 @@ def rmprog(rng, model, N, L):
     prog = []
     for _ in range(L):
         if rng.random() < 0.3:
-            prog.append([1, sorted(rng.sample(range(N), rng.randint(1, N)))])
+            qs = rng.sample(range(N), rng.randint(1, N))        # the order the qubits are GIVEN in is the order of the record: ascending half of the time only
+            prog.append([1, sorted(qs) if rng.random() < 0.5 else qs])
         else:
             prog.append([0, gen.rgate(rng, model, N)])
     if not any(i[0] == 1 for i in prog):
